@@ -221,7 +221,7 @@ func (m *modelL2) step(msg sdk.Msg, bc blockCtx, faultFired bool) stepOut {
 func (m *modelL2) stepDeposit(x *opchildtypes.MsgFinalizeTokenDeposit, bc blockCtx, faultFired bool) stepOut {
 	var p pred
 	if _, ok := validAddr(x.Sender); !ok || len(x.From) == 0 || !x.Amount.IsValid() || sdk.ValidateDenom(x.BaseDenom) != nil || x.Sequence == 0 || x.Height == 0 {
-		p.failBecause("l2deposit.invalid", "invalid-finalize-deposit-msg")
+		p.failBecause("l2deposit.invalid", "invalid-finalize-deposit-msg", "C06", "C07")
 		return stepOut{P: p}
 	}
 	if !m.isExecutor(x.Sender) {
@@ -495,11 +495,11 @@ func (m *modelL2) stepSend(x *banktypes.MsgSend, bc blockCtx) stepOut {
 	from, ok1 := validAddr(x.FromAddress)
 	to, ok2 := validAddr(x.ToAddress)
 	if !ok1 || !ok2 || !x.Amount.IsValid() || !x.Amount.IsAllPositive() {
-		p.failBecause("send.invalid", "invalid-send")
+		p.failBecause("send.invalid", "invalid-send", "C01", "C09")
 		return stepOut{P: p}
 	}
 	if m.Blocked[string(to)] {
-		p.failBecause("send.blocked", "send-to-blocked")
+		p.failBecause("send.blocked", "send-to-blocked", "C09")
 	}
 	for _, c := range x.Amount {
 		if m.Bal.get(from, c.Denom).Cmp(c.Amount.BigInt()) < 0 {
@@ -529,7 +529,7 @@ func (m *modelL2) stepAddVal(x *opchildtypes.MsgAddValidator, bc blockCtx) stepO
 	op, err := sdk.ValAddressFromBech32(x.ValidatorAddress)
 	pk, okPk := pubKeyOf(x.Pubkey)
 	if _, ok := validAddr(x.Authority); !ok || err != nil || !okPk {
-		p.failBecause("addval.invalid", "invalid-add-validator-msg")
+		p.failBecause("addval.invalid", "invalid-add-validator-msg", "C13", "C12")
 		return stepOut{P: p}
 	}
 	if x.Authority != m.Authority {
@@ -557,7 +557,7 @@ func (m *modelL2) stepRemoveVal(x *opchildtypes.MsgRemoveValidator, bc blockCtx)
 	var p pred
 	_, err := sdk.ValAddressFromBech32(x.ValidatorAddress)
 	if _, ok := validAddr(x.Authority); !ok || err != nil {
-		p.failBecause("rmval.invalid", "invalid-remove-validator-msg")
+		p.failBecause("rmval.invalid", "invalid-remove-validator-msg", "C13", "C12")
 		return stepOut{P: p}
 	}
 	if x.Authority != m.Authority {
@@ -605,7 +605,7 @@ func (m *modelL2) paramsValid(pr *opchildtypes.Params) (string, []string) {
 func (m *modelL2) stepParams(x *opchildtypes.MsgUpdateParams, bc blockCtx) stepOut {
 	var p pred
 	if _, ok := validAddr(x.Authority); !ok {
-		p.failBecause("params.invalid", "invalid-params-msg")
+		p.failBecause("params.invalid", "invalid-params-msg", "C12")
 		return stepOut{P: p}
 	}
 	if why, owners := m.paramsValid(x.Params); why != "" {
@@ -636,7 +636,7 @@ func (m *modelL2) stepSpendFeePool(x *opchildtypes.MsgSpendFeePool, bc blockCtx)
 	var p pred
 	rcpt, ok2 := validAddr(x.Recipient)
 	if _, ok := validAddr(x.Authority); !ok || !ok2 || !x.Amount.IsValid() {
-		p.failBecause("spend.invalid", "invalid-spend-msg")
+		p.failBecause("spend.invalid", "invalid-spend-msg", "C12")
 		return stepOut{P: p}
 	}
 	if x.Authority != m.Authority {
@@ -645,11 +645,11 @@ func (m *modelL2) stepSpendFeePool(x *opchildtypes.MsgSpendFeePool, bc blockCtx)
 	fc := authtypes.NewModuleAddress(authtypes.FeeCollectorName)
 	for _, c := range x.Amount {
 		if m.Bal.get(fc, c.Denom).Cmp(c.Amount.BigInt()) < 0 {
-			p.failBecause("spend.insufficient", "spend-insufficient")
+			p.failBecause("spend.insufficient", "spend-insufficient", "C12")
 		}
 	}
 	if m.Blocked[string(rcpt)] {
-		p.failBecause("spend.blocked", "spend-to-blocked")
+		p.failBecause("spend.blocked", "spend-to-blocked", "C12")
 	}
 	return stepOut{P: p, OnSuccess: func(res *txRes) []mismatch {
 		for _, c := range x.Amount {
@@ -671,10 +671,10 @@ func (m *modelL2) stepSetBridgeInfo(x *opchildtypes.MsgSetBridgeInfo, bc blockCt
 	if _, ok := validAddr(x.Sender); !ok || !bridgeInfoValid(x.BridgeInfo) {
 		p.Kind = either // validation details of the embedded config are not the property's subject
 		if _, ok := validAddr(x.Sender); !ok {
-			p.failBecause("bridgeinfo.invalid", "invalid-bridge-info-msg")
+			p.failBecause("bridgeinfo.invalid", "invalid-bridge-info-msg", "C12", "C15")
 		}
 		if x.BridgeInfo.BridgeId == 0 || len(x.BridgeInfo.BridgeAddr) == 0 {
-			p.failBecause("bridgeinfo.invalid", "invalid-bridge-info-msg")
+			p.failBecause("bridgeinfo.invalid", "invalid-bridge-info-msg", "C12", "C15")
 		}
 	}
 	if !m.isExecutor(x.Sender) {
@@ -698,7 +698,7 @@ func (m *modelL2) stepSetBridgeInfo(x *opchildtypes.MsgSetBridgeInfo, bc blockCt
 func (m *modelL2) stepExecute(x *opchildtypes.MsgExecuteMessages, bc blockCtx) stepOut {
 	var p pred
 	if _, ok := validAddr(x.Sender); !ok || len(x.Messages) == 0 {
-		p.failBecause("exec.invalid", "invalid-execute-msg")
+		p.failBecause("exec.invalid", "invalid-execute-msg", "C12")
 		return stepOut{P: p}
 	}
 	if x.Sender != m.Params.Admin {
@@ -706,7 +706,7 @@ func (m *modelL2) stepExecute(x *opchildtypes.MsgExecuteMessages, bc blockCtx) s
 	}
 	msgs, err := x.GetMsgs()
 	if err != nil {
-		p.failBecause("exec.invalid", "invalid-execute-msg")
+		p.failBecause("exec.invalid", "invalid-execute-msg", "C12")
 		return stepOut{P: p}
 	}
 	// all-or-nothing on a scratch copy
